@@ -101,7 +101,7 @@ class Ctx:
         return res
 
     # ------------------------------------------------------------------ conformance
-    def conform(self, scen_text, tag, variant="plain", crash_props=None, call_timeout=20, chunk=4000, env=None, spec="Trace", inject=None, par=NCPU):
+    def conform(self, scen_text, tag, variant="plain", crash_props=None, call_timeout=20, chunk=4000, env=None, spec="Trace", inject=None, par=NCPU, files=None, one_per_process=False, post=None):
         """run scenarios (text with 'scenario <id>' blocks) on the driver, validate, collect verdicts.
         The scenario blocks are split into chunks that are executed and validated in parallel."""
         from concurrent.futures import ThreadPoolExecutor
@@ -112,6 +112,9 @@ class Ctx:
             return
         byid = {bid: txt for bid, txt in blocks}
         crash_props = crash_props or [self.prop, "C17"]
+        for name, data in (files or {}).items():
+            with open(os.path.join(self.dir, name), "wb") as f:
+                f.write(data if isinstance(data, bytes) else data.encode())
         nchunks = max(1, min(par, (len(blocks) + 3) // 4), (len(blocks) + chunk - 1) // chunk)
         size = (len(blocks) + nchunks - 1) // nchunks
         parts = [blocks[i:i + size] for i in range(0, len(blocks), size)]
@@ -120,7 +123,9 @@ class Ctx:
             ci, part = arg
             txt = "".join(t for _, t in part)
             ctag = "%s_%d" % (tag, ci)
-            evs, info = pipeline.run_driver(b["qsx"], txt, self.dir, ctag, crash_props, call_timeout=call_timeout, env=env)
+            evs, info = pipeline.run_driver(b["qsx"], txt, self.dir, ctag, crash_props, call_timeout=call_timeout, env=env, one_per_process=one_per_process)
+            if post:
+                evs = post(evs, part, ctag)
             if inject:
                 # untrusted witnesses (verified by TLC) are inserted after the first dump of their scenario
                 out, cur, done = [], None, set()
